@@ -5,7 +5,7 @@ from vf import H, C, M
 
 UD = "ohkami_lib/src/serde_urlencoded/de.rs"
 CD = "ohkami_lib/src/serde_cookie/de.rs"
-MODULES = [M(UD, "harness/C08/urlencoded_de.rs"), M(CD, "harness/C08/cookie_de.rs")]
+MODULES = [M(UD, "harness/C08/urlencoded_de.rs"), M(CD, "harness/C08/cookie_de.rs"), M("ohkami_lib/src/serde_multipart/parse.rs", "harness/C10/parse.rs", modname="__verif_c10")]
 CONTRACTS = []
 HARNESSES = []
 B = dict(crate="ohkami_lib", strength="bounded", timeout=900)
@@ -30,7 +30,21 @@ for fam in ["value", "name"]:
         HARNESSES.append(H(f"c08_cookie_{fam}_total_k{k:02d}", functions=[f"serde_cookie::de::valid::{fam}"],
                            clauses=["Ok or Err, no panic", "yielded string valid UTF-8" + ("; only RFC 6265 token characters accepted" if fam == "name" else "")],
                            tier="quick", bound=f"every input of length {k}", **B))
+for fam, fns in [("map_step", ["AmpersandSeparated::next_key_seed", "AmpersandSeparated::next_value_seed", "CookieDeserializer::next_section", "take_n_unchecked"]),
+                 ("u8", ["deserialize_u8"]), ("bool", ["deserialize_bool"]), ("i64", ["deserialize_i64"]), ("option", ["deserialize_option"]), ("unit", ["deserialize_unit"])]:
+    for k in range(5):
+        HARNESSES.append(H(f"c08_cookie_{fam}_total_k{k:02d}", functions=["serde_cookie::de::" + f for f in fns],
+                           clauses=[T] + (["yielded key / value valid UTF-8"] if fam == "map_step" else []), tier="quick",
+                           bound=f"every input of length {k} (symbolic bytes), arbitrary cursor side", **B))
 HARNESSES.append(H("c08_cookie_value_escape_template", functions=["serde_cookie::de::valid::value", "percent_encoding::percent_decode"],
                    clauses=["for every escape %XY: Ok(v) => v is valid UTF-8"], tier="quick", bound="template `%XY`, X and Y any bytes", **B))
+# multipart parser: only the templates with EMPTY content are decided by CBMC (with 1..3 symbolic content bytes: timeout / out of memory, measured);
+# they are concrete executions of the real parser under CBMC's memory model (a malformed body without CRLF before the delimiter, one text field, one file)
+for nm, cl in [("c10_parse_malformed_total_k00", "body `--b CRLF CRLF --b--` (no CRLF before the delimiter) is refused: no arithmetic underflow, no slice outside the input"),
+               ("c10_parse_text_field_k00", "one empty text field decodes to exactly that field"),
+               ("c10_parse_file_k00", "one empty file decodes to name / filename / media type / empty content; next() yields it once")]:
+    HARNESSES.append(H(nm, functions=["serde_multipart::parse::Multipart::parse", "serde_multipart::parse::Multipart::next"], clauses=[cl], tier="quick",
+                       bound="ONE concrete template (no symbolic byte): a symbolic execution of the real parser, not a quantified statement",
+                       unwindset={"memcmp": 8, "eq_ignore_ascii_case": 24, "spec_utf8": 6, "eqb": 6, "any_content": 5}, crate="ohkami_lib", strength="bounded", timeout=900))
 TRUSTED = ["serde's primitive Deserialize impls / visitors are executed symbolically, not specified", "ASSUMED CONTRACT of the external crate percent-encoding: ohkami_lib::percent_encoding::{percent_decode, percent_decode_utf8} are stubbed by the reference RFC 3986 decoder spec/percent.rs (the real crate builds symbolic-length Vecs, on which CBMC does not terminate)", "alloc::fmt::format stubbed (error texts)"]
 ASSUMPTIONS = ["floats excluded (std float parsing is outside CBMC's reach)", "derived Deserialize impls (struct/map glue) are not driven: the unit of contract is the deserializer method (DESIGN §4 C08)"]
